@@ -59,6 +59,9 @@ pub struct Work {
     /// watch a second root: "" none, otherwise a relative directory of the first root (nested root)
     pub second_root: String,
     pub steps: Vec<Step>,
+    /// how the roots are spelled when handed to the watcher: 0 as canonicalised, 1 with a trailing '/', 2 with a trailing "/."
+    #[serde(default)]
+    pub root_spelling: u8,
 }
 
 fn kind_of(k: NK) -> Option<EventKind> {
@@ -241,7 +244,7 @@ impl Property for C12 {
             };
             steps.push(s);
         }
-        (knobs, serde_json::to_value(Work { initial, second_root, steps }).unwrap())
+        (knobs, serde_json::to_value(Work { initial, second_root, steps, root_spelling: if g.chance(1, 3) { 1 + g.below(2) as u8 } else { 0 } }).unwrap())
     }
     fn execute(&self, case: &Case) -> Outcome {
         let w: Work = serde_json::from_value(case.work.clone()).unwrap();
@@ -319,7 +322,13 @@ fn scenario(w: Work) {
     let (sender, probe) = verif::event_pair();
     let mut builder = FsWatcherBuilder::new().expect("FsWatcherBuilder::new");
     for r in &roots {
-        builder.watch(r.clone()).expect("watch");
+        // a custom source may hand the watcher a root that is not in normalised spelling; it denotes the same directory
+        let spelled = match w.root_spelling {
+            1 => PathBuf::from(format!("{}/", r.display())),
+            2 => r.join("."),
+            _ => r.clone(),
+        };
+        builder.watch(spelled).expect("watch");
     }
     let widx = detsim::notify_stub::watcher_count() - 1;
     let mut builder = Some(builder);
